@@ -31,6 +31,22 @@ def automata(rule_name):
     return e2.RuleAutomata(rule_name, table()[rule_name][1])
 
 
+def names_of(rule_name):
+    """child names of a rule in declaration order; also for a rule whose children section does not parse (a malformed
+    table is C10's subject - the other checks still drive the validator over the names it mentions)"""
+    try:
+        return list(automata(rule_name).names)
+    except e2.SpecError:
+        out = []
+        try:
+            for n in e2.flat_names(table()[rule_name][1]):
+                if n not in out:
+                    out.append(n)
+        except Exception:  # noqa
+            pass
+        return out
+
+
 TYPED_LITERAL = {
     "intContent": "1",
     "floatContent": "1.5",
